@@ -16,6 +16,7 @@ import SuccinctlyVerif.Proof.BPSibling
 import SuccinctlyVerif.Proof.BPFast2
 import SuccinctlyVerif.Proof.BPSelect0
 import SuccinctlyVerif.Proof.BPSse3
+import SuccinctlyVerif.Proof.BPSelCS3
 namespace SV.Props.C04
 open SV SV.BP SV.BPM
 
@@ -377,27 +378,33 @@ theorem storage_strays_variant_irrelevant_2 (simd simd' owned owned' : Bool) (ws
   rw [a.1, a.2, a'.1, a'.2, b.1, b.2, b'.1, b'.2, hbits]
   exact ⟨rfl, rfl⟩
 
-/-! ### operations not closed in this delivery (stated parts) -/
+/-! ### select1 -/
 
-/-- `select1` with `NoSelect` returns `None` for every `k` (documented: no select index; callers
-binary-search `rank1`). NOT PROVED in this delivery: `select1_eq` for `WithSelect` (sampled
-`SelectIndex<u32>` + `scan_select` + `select_in_word`) and `WithCsPoppy` (block samples at any rate,
-`partition_point` over `rank_l1`, the 9-bit offset walk) = `selectB true`; they are modelled
-(`BP.select1`) and compared with the spec by the driver on every request. -/
-theorem select1_noselect_partial (simd owned : Bool) (ws : List (BitVec 64)) (len : Nat) (k : Nat) (hlen : len < 2 ^ 32) :
-    (construct simd owned ws len .noSelect).map (fun I => I.select1 k) = some none := by
-  rw [construct_some simd owned ws len _ hlen, Option.map_some]
-  rfl
+/-- `select1(k)` for every select support: `NoSelect` returns `None` for every `k` (documented: no
+select index); `WithSelect` (sampled `SelectIndex<u32>` at rate 256: `jump_to`, `scan_select`,
+`select_in_word`) and `WithCsPoppy` at any rate (block samples, bracket, `partition_point` over
+`rank_l1` as core's binary search, 9-bit offset walk, `select_in_word`) return the position of the
+`k`-th open by the left-to-right scan, `None` for `k ≥` number of opens — for owned and borrowed
+storage, any stray bits above `len`, default and `simd` builds. `select_in_word` is the CTZ path;
+C02 (`select_ctz_eq`, `select_pdep_eq`, `select_paths_agree`) proves every dispatch path equal to
+it. -/
+theorem select1_eq (simd owned : Bool) (ws : List (BitVec 64)) (len : Nat) (k : SelKind) (j : Nat)
+    (hw : ws.length = (len + 63) / 64) (hlen : len < 2 ^ 32) :
+    (construct simd owned ws len k).map (fun I => I.select1 j) =
+      some (match k with
+        | .noSelect => none
+        | _ => BP.select1 (bitsOf ws len) j) := by
+  obtain ⟨h1, h2⟩ := stored_ok owned ws len hw
+  rw [construct_some simd owned ws len k hlen, Option.map_some]
+  cases k with
+  | noSelect => rfl
+  | withSelect => rw [BPR.select1_withSelect_eq simd _ len j h1 hlen, h2]; rfl
+  | csPoppy rate => rw [BPR.select1_csPoppy_eq simd _ len rate j h1 hlen, h2]; rfl
 
 example : (construct false true [0xB#64] 6 .noSelect).map (fun I => I.select1 0) = some none := by decide +kernel
-
-/-- Full statement of the part of the property not proved in this delivery (a definition of the
-proposition, never asserted): `select1(k)` with a select index = position of the `k`-th open. -/
-def select1_eq_full_statement : Prop :=
-  ∀ (simd owned : Bool) (ws : List (BitVec 64)) (len rate : Nat) (withSelect : Bool) (j : Nat),
-    ws.length = (len + 63) / 64 → len < 2 ^ 32 →
-    (construct simd owned ws len (if withSelect then .withSelect else .csPoppy rate)).map (fun I => I.select1 j) =
-      some (BP.select1 (bitsOf ws len) j)
-
+example : (construct false false [0xFFFFFFFFFFFFFFCB#64] 6 (.csPoppy 2)).map (fun I => I.select1 2) = some (some 3) := by
+  decide +kernel
+example : (construct true true [0xFFFFFFFFFFFFFFCB#64] 6 .withSelect).map (fun I => I.select1 3) = some none := by
+  decide +kernel
 
 end SV.Props.C04
